@@ -137,8 +137,13 @@ Theorem C11_mspq_no_out_of_bounds :
 Proof. exact mspq_no_oob_event. Qed.
 Print Assumptions C11_mspq_no_out_of_bounds.
 
-(** capacities in 1..16 for which the counter produces a slot outside the buffer of capacity + 1 cells
-    (only reachable with a buffer whose Exp2 parameter is false): candidate finding, see the report *)
+(** capacities in 1..16 for which the counter produces a slot outside a buffer of capacity + 1 cells.  This was a
+    genuine defect of the library (finding "mspq-non-power-of-two-buffer-overflow", confirmed under ASan with
+    harness/C11/asan_cap5.cpp: a 6-cell buffer with Exp2 = false gave capacity() = 5 and the 5th push wrote to
+    m_Heap[6]); repaired in /repo ("fix: MSPriorityQueue uses only complete heap levels of a non-power-of-two
+    buffer": capacity() = floor2(buffer size) - 1, so cap + 1 = 2^k for every buffer and [slots_ok] holds by
+    [C11_mspq_capacities]).  The theorem stays as the explanation of the old behaviour; checks/C11.py runs
+    bounds-checked buffers of sizes 6, 10, 14, ... and the ASan program as regression. *)
 Theorem C11_mspq_unsafe_capacities :
   filter (fun c => negb (slots_ok c)) (seq 1 16) = [5; 9; 10; 11; 12; 13]%nat.
 Proof. exact unsafe_capacities_upto_16. Qed.
